@@ -302,7 +302,7 @@ theorem exprN_correct_aux (S : Store) : ∀ (n : Nat) (e : WNum), sizeOf e ≤ n
       · simp at hv
     | «as» to e =>
       simp only [WNum.as.sizeOf_spec] at hs
-      simp only [WNum.ok, Bool.and_eq_true] at hok
+      simp only [WNum.ok] at hok
       simp only [wevalN] at hv
       cases he : wevalN S e with
       | none => simp [he] at hv
@@ -312,7 +312,7 @@ theorem exprN_correct_aux (S : Store) : ∀ (n : Nat) (e : WNum), sizeOf e ≤ n
         · rename_i hto
           simp only [Option.some.injEq] at hv
           subst hv
-          obtain ⟨ax, hax, hokx, hwrap⟩ := stripMask_sem S to e a hok.2 he
+          obtain ⟨ax, hax, hokx, hwrap⟩ := stripMask_sem S to e a hok he
           have hsz := sizeOf_stripMask to e
           obtain ⟨c, r, hc, hr, g⟩ := ih (stripMask to e) (by omega) hokx ax hax
           refine ⟨.cast (ctyOf to) c, ⟨ctyOf to, a⟩, by rw [lowerN]; simp [cTypeOf_eq, hc], ?_, ⟨rfl, has_cty _ _ hto, ?_, ?_⟩⟩
@@ -336,5 +336,114 @@ theorem exprN_correct (S : Store) (e : WNum) (hok : e.ok = true) (v : Int) (hv :
       (∀ t, e.ty? = some t → r.ty = ctyOf t) := by
   obtain ⟨c, r, hc, hr, g⟩ := exprN_correct_aux S (sizeOf e) e (Nat.le_refl _) hok v hv
   exact ⟨c, r, hc, hr, g.val, g.cty⟩
+
+/-! ## Boolean expression trees -/
+
+theorem b2i_01 (b : Bool) : b2i b = 0 ∨ b2i b = 1 := by cases b <;> simp [b2i]
+
+theorem ideal_cmp_01 (op : WOp) (t : WTy) (a b : Int) (h : op.isComparison = true ∨ op.isLogical = true) :
+    op.ideal t a b = 0 ∨ op.ideal t a b = 1 := by
+  cases op <;> simp [WOp.isComparison, WOp.isLogical] at h <;> simp only [WOp.ideal] <;> exact b2i_01 _
+
+/-- **exprB_correct.**  Every well-typed boolean expression tree (comparisons
+of numeric trees, `and`, `or`, `not`) with Wuffs meaning `v` (0 or 1) is
+written as a C expression that evaluates, without undefined behaviour, to the
+`int` `v`. -/
+theorem exprB_correct (S : Store) (e : WBool) : e.ok = true → ∀ v, wevalB S e = some v →
+    ∃ c r, lowerB e = some c ∧ ceval S.toC c = some r ∧ r.v = v ∧ r.ty = .int ∧ (v = 0 ∨ v = 1) := by
+  induction e with
+  | cmp op t l r =>
+    intro hok v hv
+    simp only [WBool.ok, Bool.and_eq_true, Bool.not_eq_true', Bool.or_eq_true, beq_iff_eq] at hok
+    obtain ⟨⟨⟨⟨⟨hop, hkk⟩, hlt⟩, hrt⟩, hokl⟩, hokr⟩ := hok
+    simp only [wevalB] at hv
+    cases hl : wevalN S l with
+    | none => simp [hl] at hv
+    | some a =>
+    cases hr : wevalN S r with
+    | none => simp [hl, hr] at hv
+    | some b =>
+    simp only [hl, hr] at hv
+    split at hv
+    · rename_i hc
+      simp only [Option.some.injEq] at hv
+      subst hv
+      obtain ⟨cl, x, hcl, hxe, gx⟩ := exprN_correct_aux S (sizeOf l) l (Nat.le_refl _) hokl a hl
+      obtain ⟨cr, y, hcr, hye, gy⟩ := exprN_correct_aux S (sizeOf r) r (Nat.le_refl _) hokr b hr
+      have hnl : op.isLogical = false := by cases op <;> simp [WOp.isComparison] at hop <;> rfl
+      have hns : WOp.isShift op = false := by cases op <;> simp [WOp.isComparison] at hop <;> rfl
+      have hk : ¬(l.isConst = true ∧ r.isConst = true) := by
+        intro hh; simp [hh.1, hh.2] at hkk
+      have hx : if op.isLogical then x.v = a else Rep t l.isConst a x := by
+        simp only [hnl, Bool.false_eq_true, if_false]
+        exact ⟨gx.val, hc.1, gx.wf, gx.ty t hlt hc.1⟩
+      have hy : if op.isLogical || WOp.isShift op then (y.v = b ∧ 0 ≤ b) else Rep t r.isConst b y := by
+        simp only [hnl, hns, Bool.or_false, Bool.false_eq_true, if_false]
+        exact ⟨gy.val, hc.2, gy.wf, gy.ty t hrt hc.2⟩
+      have hdef : op.defined t a b := by cases op <;> simp [WOp.isComparison] at hop <;> simp [WOp.defined]
+      obtain ⟨e0, r0, h1, h2, h3, h4⟩ := lower_correct op t l.isConst r.isConst a b x y hk hx hy hdef
+      refine ⟨CExpr.subst2 cl cr e0, r0, by simp [lowerB, h1, hcl, hcr], ?_, h3, ?_, ideal_cmp_01 op t a b (Or.inl hop)⟩
+      · rw [ceval_template _ e0 cl cr x y (lowerBin_holes _ _ _ _ _ h1) hxe hye]; exact h2
+      · rw [h4]; simp [resTy, hop]
+    · simp at hv
+  | logic op l r ihl ihr =>
+    intro hok v hv
+    simp only [WBool.ok, Bool.and_eq_true] at hok
+    obtain ⟨⟨hop, hokl⟩, hokr⟩ := hok
+    simp only [wevalB] at hv
+    cases hl : wevalB S l with
+    | none => simp [hl] at hv
+    | some a =>
+    cases hr : wevalB S r with
+    | none => simp [hl, hr] at hv
+    | some b =>
+    simp only [hl, hr, Option.some.injEq] at hv
+    subst hv
+    obtain ⟨cl, x, hcl, hxe, hxv, _, _⟩ := ihl hokl a hl
+    obtain ⟨cr, y, hcr, hye, hyv, _, hb01⟩ := ihr hokr b hr
+    have hx : if op.isLogical then x.v = a else Rep .u8 false a x := by simp only [hop, if_true]; exact hxv
+    have hy : if op.isLogical || WOp.isShift op then (y.v = b ∧ 0 ≤ b) else Rep .u8 false b y := by
+      simp only [hop, Bool.true_or, if_true]
+      exact ⟨hyv, by rcases hb01 with h | h <;> omega⟩
+    have hdef : op.defined .u8 a b := by cases op <;> simp [WOp.isLogical] at hop <;> simp [WOp.defined]
+    obtain ⟨e0, r0, h1, h2, h3, h4⟩ := lower_correct op .u8 false false a b x y (by simp) hx hy hdef
+    refine ⟨CExpr.subst2 cl cr e0, r0, by simp [lowerB, h1, hcl, hcr], ?_, h3, ?_, ideal_cmp_01 op .u8 a b (Or.inr hop)⟩
+    · rw [ceval_template _ e0 cl cr x y (lowerBin_holes _ _ _ _ _ h1) hxe hye]; exact h2
+    · rw [h4]; simp [resTy, hop]
+  | not e ih =>
+    intro hok v hv
+    simp only [WBool.ok] at hok
+    simp only [wevalB] at hv
+    cases he : wevalB S e with
+    | none => simp [he] at hv
+    | some a =>
+      simp only [he, Option.map_some, Option.some.injEq] at hv
+      subst hv
+      obtain ⟨c, x, hc, hxe, hxv, _, _⟩ := ih hok a he
+      refine ⟨.un .lnot c, ⟨.int, b2i (a == 0)⟩, ?_, ?_, rfl, rfl, b2i_01 _⟩
+      · simp [lowerB, lowerUn, cUnOf, hc, CExpr.subst2]
+      · simp [ceval, hxe, evalUn, boolResult, hxv]
+
+/-! ## Non-vacuity -/
+
+/-- `((x ~mod* y) + 7) as base.u32` over u16 x, y — the tree that contains the
+repaired `~mod*` node: at x = y = 65535 the inner product is 1, the sum 8 -/
+def demoTree : WNum := .as .u32 (.bin .add .u16 (.bin .modMul .u16 (.var 0 .u16) (.var 1 .u16)) (.const 7))
+
+def demoStore : Store := fun i => if i < 2 then some (.u16, 65535) else none
+
+theorem demoTree_ok : demoTree.ok = true := by decide
+theorem demoTree_val : wevalN demoStore demoTree = some 8 := by decide
+/-- the emitted text: `((uint32_t)(((uint16_t)(((uint16_t)(((uint32_t)(x)) * y)) + 7u))))` -/
+example : lowerN demoTree =
+    some (.cast .u32 (.cast .u16 (.bin .add (.cast .u16 (.bin .mul (.cast .u32 (.hole 0)) (.hole 1))) (.lit 7)))) := by
+  simp [demoTree, lowerN, stripMask, lowerBin, cBinOf, cTypeOf, WTy.isSmall, WOp.isComparison, WOp.isLogical,
+    WNum.isConst, CExpr.subst2]
+example : ∃ c, lowerN demoTree = some c ∧ ceval demoStore.toC c = some ⟨.u32, 8⟩ := by
+  obtain ⟨c, r, hc, hr, hv, ht⟩ := exprN_correct demoStore demoTree demoTree_ok 8 demoTree_val
+  refine ⟨c, hc, ?_⟩
+  have := ht .u32 rfl
+  rw [hr]; congr 1
+  cases r; simp_all [ctyOf]
 
 end WuffsVerif.Props.C04
